@@ -25,14 +25,16 @@ type stok struct {
 }
 
 type c12Case struct {
-	Kind     string   `json:"kind"`
-	Body     []string `json:"body"`
-	V        []string `json:"v"`
-	W        []string `json:"w"`
-	Toks     []stok   `json:"toks"`
-	OnlyBody bool     `json:"onlybody"`
-	Expect   []string `json:"expect"`
-	Variant  int      `json:"variant"`
+	Kind      string   `json:"kind"`
+	Body      []string `json:"body"`
+	V         []string `json:"v"`
+	W         []string `json:"w"`
+	Toks      []stok   `json:"toks"`
+	OnlyBody  bool     `json:"onlybody"`
+	Expect    []string `json:"expect"`
+	OnlyBody0 bool     `json:"onlybody0"`
+	Expect0   []string `json:"expect0"`
+	Variant   int      `json:"variant"`
 }
 
 type C12Line struct {
@@ -41,6 +43,9 @@ type C12Line struct {
 	Body      []string `json:"body"`
 	OnlyBody  bool     `json:"onlybody"`
 	Expect    []string `json:"expect"`
+	OnlyBody0 bool     `json:"onlybody0"`
+	Expect0   []string `json:"expect0"`
+	Out0      []string `json:"out0"` // the same text evaluated in a context without any property
 	Text      string   `json:"text"`
 	Out       []string `json:"out"`
 	Rewritten bool     `json:"rewritten"` // the template went through an identity rewrite (refactor.Template) without error
@@ -180,7 +185,7 @@ func c12Scan(args []string) error {
 			d := *c
 			d.Variant = vi
 			d.Toks = nil
-			line := &C12Line{Src: fmt.Sprintf("%s/v%d", src, vi), Kind: c.Kind, Body: c.Body, OnlyBody: c.OnlyBody, Expect: c.Expect, Out: []string{}, RewOut: []string{}, Desc: string(mustJSON(d))}
+			line := &C12Line{Src: fmt.Sprintf("%s/v%d", src, vi), Kind: c.Kind, Body: c.Body, OnlyBody: c.OnlyBody, Expect: c.Expect, Out: []string{}, Out0: []string{}, Expect0: []string{}, RewOut: []string{}, Desc: string(mustJSON(d))}
 			if line.Expect == nil {
 				line.Expect = []string{}
 			}
@@ -229,6 +234,15 @@ func c12Scan(args []string) error {
 				o, pan := safeTemplate(env, ctx, text)
 				line.Panic = pan
 				line.Out = classesOf(o, vi)
+				line.OnlyBody0, line.Expect0 = c.OnlyBody0, c.Expect0
+				if line.Expect0 == nil {
+					line.Expect0 = []string{}
+				}
+				o0, pan0 := safeTemplate(env, types.NewXObject(map[string]types.XValue{}), text)
+				if pan0 != "" && line.Panic == "" {
+					line.Panic = pan0
+				}
+				line.Out0 = classesOf(o0, vi)
 				// the same template after a rewrite that changes nothing (as flow migrations and refactorings do: they
 				// scan without unescaping and write the pieces back): literal text must still be the same literal text
 				line.RewOut = []string{}
